@@ -1557,9 +1557,12 @@ func (s *Store) processLTXStreamFrame(ctx context.Context, frame *LTXStreamFrame
 
 	// If we receive an LTX file while holding the remote HALT lock then the
 	// remote lock must have expired or been released so we can clear it locally.
+	// Files up to the position the lock was granted at, received while this
+	// node is still behind that position, are the ones a lagging node is
+	// waiting for (see AcquireRemoteHaltLock) and do not end it.
 	//
 	// We also hold the local WRITE lock so a local write cannot be in-progress.
-	if haltLock := db.RemoteHaltLock(); haltLock != nil {
+	if haltLock := db.RemoteHaltLock(); haltLock != nil && (hdr.MaxTXID > haltLock.Pos.TXID || db.Pos().TXID >= haltLock.Pos.TXID) {
 		TraceLog.Printf("[ProcessLTXStreamFrame.Unhalt(%s)]: replica holds HALT lock but received LTX file, unsetting HALT lock", db.Name())
 		if err := db.UnsetRemoteHaltLockNoLock(ctx, haltLock.ID); err != nil {
 			return fmt.Errorf("release remote halt lock: %w", err)
